@@ -38,6 +38,8 @@ package retry
 //@   ensures [fails-exactly-when-out-of-candidates] result2 <==> index < len(operators)
 //@   ensures !result2 ==> result1 == len(operators) && result1 <= index
 //@   ensures [drops-all-seats-of-one-candidate-keeps-all-other-seats] result2 ==> (exists a chain.Address :: (exists t int :: 0 <= t && t < len(operators) && operators[t] == a) && len(result0) == len(groupMembers) - @occ(arr(groupMembers), a, len(groupMembers)) && (forall x chain.Address :: @occ(arr(result0), x, len(result0)) == ite(x == a, 0, @occ(arr(groupMembers), x, len(groupMembers)))))
+//@   ensures [kept-seats-are-seats-of-the-input] result2 ==> (forall t int :: 0 <= t && t < len(result0) ==> (exists j int :: 0 <= j && j < len(groupMembers) && groupMembers[j] == result0[t]))
+//@   loop 1 invariant forall t int :: 0 <= t && t < len(usedOperators) ==> (exists j int :: 0 <= j && j < rangeidx1 && groupMembers[j] == usedOperators[t])
 //@   loop 1 invariant len(usedOperators) == rangeidx1 - @occ(arr(groupMembers), removedOperator, rangeidx1)
 //@   loop 1 invariant forall x chain.Address :: @occ(arr(usedOperators), x, len(usedOperators)) == ite(x == removedOperator, 0, @occ(arr(groupMembers), x, rangeidx1))
 
@@ -51,6 +53,8 @@ package retry
 //@   ensures [keeps-at-least-the-requested-seats] result2 ==> len(result0) >= retryParticipantsCount
 //@   loop 1 invariant 0 <= i && forall t int :: { pairIndexes[t] } 0 <= t && t < len(pairIndexes) ==> 0 <= pairIndexes[t][0] && pairIndexes[t][0] < pairIndexes[t][1] && pairIndexes[t][1] < len(operators) && len(groupMembers) - @occ(arr(groupMembers), operators[pairIndexes[t][0]], len(groupMembers)) - @occ(arr(groupMembers), operators[pairIndexes[t][1]], len(groupMembers)) >= retryParticipantsCount
 //@   loop 2 invariant i < j && j <= len(operators) && forall t int :: { pairIndexes[t] } 0 <= t && t < len(pairIndexes) ==> 0 <= pairIndexes[t][0] && pairIndexes[t][0] < pairIndexes[t][1] && pairIndexes[t][1] < len(operators) && len(groupMembers) - @occ(arr(groupMembers), operators[pairIndexes[t][0]], len(groupMembers)) - @occ(arr(groupMembers), operators[pairIndexes[t][1]], len(groupMembers)) >= retryParticipantsCount
+//@   ensures [kept-seats-are-seats-of-the-input] result2 ==> (forall t int :: 0 <= t && t < len(result0) ==> (exists j int :: 0 <= j && j < len(groupMembers) && groupMembers[j] == result0[t]))
+//@   loop 3 invariant forall t int :: 0 <= t && t < len(usedOperators) ==> (exists j int :: 0 <= j && j < rangeidx3 && groupMembers[j] == usedOperators[t])
 //@   loop 3 invariant len(usedOperators) == rangeidx3 - @occ(arr(groupMembers), leftOperator, rangeidx3) - @occ(arr(groupMembers), rightOperator, rangeidx3)
 //@   loop 3 invariant forall x chain.Address :: @occ(arr(usedOperators), x, len(usedOperators)) == ite(x == leftOperator || x == rightOperator, 0, @occ(arr(groupMembers), x, rangeidx3))
 
@@ -65,6 +69,8 @@ package retry
 //@   loop 1 invariant 0 <= i && forall t int :: { tripletIndexes[t] } 0 <= t && t < len(tripletIndexes) ==> 0 <= tripletIndexes[t][0] && tripletIndexes[t][0] < tripletIndexes[t][1] && tripletIndexes[t][1] < tripletIndexes[t][2] && tripletIndexes[t][2] < len(operators) && len(groupMembers) - @occ(arr(groupMembers), operators[tripletIndexes[t][0]], len(groupMembers)) - @occ(arr(groupMembers), operators[tripletIndexes[t][1]], len(groupMembers)) - @occ(arr(groupMembers), operators[tripletIndexes[t][2]], len(groupMembers)) >= retryParticipantsCount
 //@   loop 2 invariant i < j && j <= len(operators) - 1 && forall t int :: { tripletIndexes[t] } 0 <= t && t < len(tripletIndexes) ==> 0 <= tripletIndexes[t][0] && tripletIndexes[t][0] < tripletIndexes[t][1] && tripletIndexes[t][1] < tripletIndexes[t][2] && tripletIndexes[t][2] < len(operators) && len(groupMembers) - @occ(arr(groupMembers), operators[tripletIndexes[t][0]], len(groupMembers)) - @occ(arr(groupMembers), operators[tripletIndexes[t][1]], len(groupMembers)) - @occ(arr(groupMembers), operators[tripletIndexes[t][2]], len(groupMembers)) >= retryParticipantsCount
 //@   loop 3 invariant [every-candidate-triplet-leaves-enough-seats] j < k && k <= len(operators) && forall t int :: { tripletIndexes[t] } 0 <= t && t < len(tripletIndexes) ==> 0 <= tripletIndexes[t][0] && tripletIndexes[t][0] < tripletIndexes[t][1] && tripletIndexes[t][1] < tripletIndexes[t][2] && tripletIndexes[t][2] < len(operators) && len(groupMembers) - @occ(arr(groupMembers), operators[tripletIndexes[t][0]], len(groupMembers)) - @occ(arr(groupMembers), operators[tripletIndexes[t][1]], len(groupMembers)) - @occ(arr(groupMembers), operators[tripletIndexes[t][2]], len(groupMembers)) >= retryParticipantsCount
+//@   ensures [kept-seats-are-seats-of-the-input] result2 ==> (forall t int :: 0 <= t && t < len(result0) ==> (exists j int :: 0 <= j && j < len(groupMembers) && groupMembers[j] == result0[t]))
+//@   loop 4 invariant forall t int :: 0 <= t && t < len(usedOperators) ==> (exists j int :: 0 <= j && j < rangeidx4 && groupMembers[j] == usedOperators[t])
 //@   loop 4 invariant len(usedOperators) == rangeidx4 - @occ(arr(groupMembers), leftOperator, rangeidx4) - @occ(arr(groupMembers), middleOperator, rangeidx4) - @occ(arr(groupMembers), rightOperator, rangeidx4)
 //@   loop 4 invariant forall x chain.Address :: @occ(arr(usedOperators), x, len(usedOperators)) == ite(x == leftOperator || x == middleOperator || x == rightOperator, 0, @occ(arr(groupMembers), x, rangeidx4))
 
@@ -74,6 +80,7 @@ package retry
 //@   requires len(groupMembers) <= 255 && retryCount <= 1000000000 && retryParticipantsCount <= 1000000000
 //@   ensures [keeps-at-least-the-requested-seats] err == nil ==> len(result0) >= retryParticipantsCount
 //@   ensures [keeps-or-drops-each-operators-seats-together] err == nil ==> (forall x chain.Address :: @occ(arr(result0), x, len(result0)) == 0 || @occ(arr(result0), x, len(result0)) == @occ(arr(groupMembers), x, len(groupMembers)))
+//@   ensures [kept-seats-are-seats-of-the-input] err == nil ==> (forall t int :: 0 <= t && t < len(result0) ==> (exists j int :: 0 <= j && j < len(groupMembers) && groupMembers[j] == result0[t]))
 //@   loop 1 invariant forall p, q int :: { operators[p], operators[q] } 0 <= p && p < q && q < len(operators) ==> operators[p] != operators[q]
 //@   loop 1 invariant forall p int :: { operators[p] } 0 <= p && p < len(operators) ==> (operators[p] in visited1) && len(groupMembers) - @occ(arr(groupMembers), operators[p], len(groupMembers)) >= retryParticipantsCount
 
@@ -87,4 +94,6 @@ package retry
 //@   opt safe -index
 //@   requires len(groupMembers) <= 255
 //@   ensures [keeps-or-drops-each-operators-seats-together] err == nil ==> (forall x chain.Address :: @occ(arr(result0), x, len(result0)) == 0 || @occ(arr(result0), x, len(result0)) == @occ(arr(groupMembers), x, len(groupMembers)))
+//@   ensures [kept-seats-are-seats-of-the-input] err == nil ==> (forall t int :: 0 <= t && t < len(result0) ==> (exists j int :: 0 <= j && j < len(groupMembers) && groupMembers[j] == result0[t]))
+//@   loop 3 invariant forall t int :: 0 <= t && t < len(seats) ==> (exists j int :: 0 <= j && j < rangeidx3 && groupMembers[j] == seats[t])
 //@   loop 3 invariant forall x chain.Address :: @occ(arr(seats), x, len(seats)) == ite((x in acceptedOperators) && acceptedOperators[x], @occ(arr(groupMembers), x, rangeidx3), 0)
